@@ -34,7 +34,9 @@ func pick(t *rapid.T, label string, n int) int {
 	return int(((v * 0x9E3779B97F4A7C15) >> 33) % uint64(n))
 }
 
-func pickS(t *rapid.T, label string, choices []string) string { return choices[pick(t, label, len(choices))] }
+func pickS(t *rapid.T, label string, choices []string) string {
+	return choices[pick(t, label, len(choices))]
+}
 
 func chance(t *rapid.T, label string, percent int) bool { return pick(t, label, 100) >= 100-percent }
 
@@ -64,7 +66,7 @@ type message struct {
 	Batch     bool       `json:"batch"`
 	Elems     []elemSpec `json:"elems"`
 	Lead      string     `json:"-"`
-	Cycle     bool       `json:"-"` // cancel with the key a subscription that an un-keyed unsubscribe aimed at
+	Cycle     bool       `json:"-"`                 // cancel with the key a subscription that an un-keyed unsubscribe aimed at
 	Garbage   string     `json:"garbage,omitempty"` // whole message is this text (no elements)
 	HTTP      httpOpts   `json:"http"`
 }
